@@ -558,3 +558,31 @@ Proof. reflexivity. Qed.
 Lemma chunked_same chunked isVideo scte s d ts :
   delivered_emsg chunked isVideo scte s d ts = segment_emsg isVideo scte s d ts.
 Proof. unfold delivered_emsg, chunked_drops_emsg. rewrite andb_false_r. reflexivity. Qed.
+
+(** ** Wall clock. The media timeline starts at availabilityStartTime (start_<s>, in seconds): the
+    wall-clock second of a splice scheduled at offset [off] of minute [m] of the media timeline is
+    start + 60*m + off. It is [off] seconds after a full wall-clock minute iff 60 divides start. *)
+Definition wall_second (start m off : Z) : Z := start + 60 * m + off.
+
+Lemma wall_offset_iff start m off : 0 <= off < 60 ->
+  (wall_second start m off mod 60 = off <-> start mod 60 = 0).
+Proof.
+  intros Ho. unfold wall_second.
+  replace (start + 60 * m + off) with (start + off + m * 60) by ring.
+  rewrite Z.mod_add by lia.
+  pose proof (Z.div_mod start 60 ltac:(lia)). pose proof (Z.mod_pos_bound start 60 ltac:(lia)).
+  set (r := start mod 60) in *. set (q := start / 60) in *.
+  replace (start + off) with (r + off + q * 60) by lia. rewrite Z.mod_add by lia.
+  split; intros Hx.
+  - destruct (Z_lt_ge_dec (r + off) 60).
+    + rewrite Z.mod_small in Hx by lia. lia.
+    + replace (r + off) with (r + off - 60 + 1 * 60) in Hx by lia. rewrite Z.mod_add, Z.mod_small in Hx by lia. lia.
+  - rewrite Hx. apply Z.mod_small. lia.
+Qed.
+
+(** FINDING (offset-on-media-timeline:start-not-multiple-of-60): start_1700000065, one event per minute:
+    the splice at media time 70 s is at wall-clock second :35 of its minute, not :10 *)
+Lemma wall_offset_witness :
+  let start := 1700000065 in
+  wall_second start 1 10 mod 60 = 35 /\ splice_offsets 1 = Some [10] /\ start mod 60 = 25.
+Proof. repeat split. Qed.
